@@ -158,7 +158,15 @@ def impl_unpack(buf):
         pos = len(m.get_so_far())
         return enc_z(b._flags) + canon_attrs(b) + [pos], b, pos
 
-    return with_watchdog(go, 20.0)
+    if _HUNG:
+        return ("hang", None)              # an abandoned thread is still spinning: do not pile up more
+    r = with_watchdog(go, 10.0)
+    if r[0] == "hang":
+        _HUNG.append(True)
+    return r
+
+
+_HUNG = []
 
 
 def ref_count(buf):
@@ -328,7 +336,7 @@ def all_shapes():
 
 def run(ctx):
     rng = ctx.rng
-    reps = 24 if ctx.thorough else 3
+    reps = 12 if ctx.thorough else 3
     ctx.rule = ("seeded generator (random.Random('C33-<seed>')): all 2^6 presence combinations of size/uid/gid/"
                 "mode/atime/mtime (so also unpaired ids / times) x extended map empty / non-empty, values from the "
                 "32-/64-bit boundary sets and random, str and bytes keys/values incl. empty and non-ASCII, float "
@@ -381,7 +389,7 @@ def run(ctx):
 
     # ---- 2. _unpack on blocks no _pack produced ------------------------------------------------------
     cases = []
-    for _ in range(2500 if ctx.thorough else 300):
+    for _ in range(1500 if ctx.thorough else 300):
         kind, buf = gen_malformed_buf(rng)
         if ref_count(buf) > MAX_COUNT:
             continue                       # the real loop would spin for up to 2^32 rounds
@@ -389,6 +397,8 @@ def run(ctx):
         if st != "ok":
             ctx.disagree("_unpack raised / hung on a malformed block", case={"buf": buf},
                          impl=repr(res) if st == "exc" else "hang")
+            if st == "hang":
+                break                      # the abandoned thread keeps spinning: do not pile up more
             continue
         if len(res[0]) > 3000:
             continue                       # a zero-padded string of up to 1 MiB: keep case files small
